@@ -18,8 +18,15 @@ Supported subset (everything else raises `Unsupported`, which the caller reports
                clone detach contiguous) are the identity or the Int -> scalar cast
   None         Optional[float] variables are tracked statically along each path; a test on an unknown one becomes a
                `match`
+  records      (mode "record") objects with a fixed set of scalar attributes (`Frag.fields`) are values of a Lean structure
+               (`Frag.record`); `y = shallow_copy(x)` is the SAME record (a fresh, owned copy), `y.attr = e` / `y.attr op= e`
+               on an owned copy is a record update `{ y with attr := e }` (on anything else: aliasing, not modelled),
+               dotted variables (`self.exp`) can be parameters and can be re-bound, `x.m()` for `m` in `Frag.methods` is a
+               Lean function, a call listed in `Frag.ctors` is a record literal of its keyword arguments (omitted keywords
+               take `Frag.defaults`); any other constructor / call leaves the subset
 
-Kinds: "real" (the scalar type α), "int" (Lean Int), "bool" (Prop in conditions), "optreal" (Option α).
+Kinds: "real" (the scalar type α), "int" (Lean Int), "bool" (Prop in conditions), "optreal" (Option α), "optobj" (Option ι:
+an optional opaque object, e.g. an image, that is only tested for None, aliased, and handed to the `objfuncs`).
 Python semantics kept: `//` and `%` are floor division / modulus (Int.fdiv / Int.fmod), tensor `fmod` truncates
 (Int.tmod); float literals are read as the exact decimal they are written as; `**` only with a literal exponent >= 0.
 Not kept (stated in the generated header): ZeroDivisionError of float `/` (Lean's total division is used; equality
@@ -41,7 +48,8 @@ class Unsupported(Exception):
 
 
 INSTANCES = ("{α : Type} [Add α] [Sub α] [Mul α] [Div α] [Neg α] [NatCast α] [IntCast α] [HasFloor α] "
-             "[DecidableEq α] [LT α] [DecidableRel (α := α) (· < ·)]")
+             "[DecidableEq α] [LT α] [DecidableRel (α := α) (· < ·)] {ι : Type}")
+OPT = ("optreal", "optobj")     # Optional[...] variables tracked along each path; "optobj": an opaque object (Lean `Option ι`)
 
 PRELUDE = """/-- Python `abs` on a scalar. -/
 def pyAbs (x : α) : α := if x < ((0 : Nat) : α) then -x else x
@@ -55,6 +63,7 @@ class Var:
     lean: str
     kind: str                    # real | int | bool | optreal
     none: Optional[bool] = None  # for optreal: statically known to be None / not None / unknown
+    owned: bool = False          # for rec: a fresh copy made in this fragment (attribute assignment allowed)
 
 
 @dataclass
@@ -79,8 +88,19 @@ class Frag:
     kwarg: Optional[str] = None
     idfuncs: Sequence[str] = ()       # calls read as their first argument (layout changes: move_dim, unsqueeze, ...)
     funcs: Sequence[str] = ()         # local helper functions of two scalars, kept uninterpreted: parameters `f_<name> : α → α → α`
+    objfuncs: Sequence[str] = ()      # functions of two opaque objects ("optobj" variables known to be present): `f_<name> : ι → ι → α`
     lets: Sequence[str] = ()          # lets mode: names assigned (in this order) at the top level of the function
     result: Optional[str] = None      # lets mode: variable whose assigned value contains the tuple/list of result entries
+    # record mode (whole function body; parameters of kind "rec", possibly dotted such as "self.exp"; returns a record)
+    record: Optional[str] = None      # Lean structure `record α` of every "rec" value
+    fields: Dict[str, Tuple[str, str]] = field(default_factory=dict)   # Python attribute -> (Lean field, real | nat | bool)
+    copies: Sequence[str] = ("shallow_copy",)                          # calls that return a shallow copy of their argument
+    methods: Dict[str, str] = field(default_factory=dict)              # argument-less method of a record -> Lean function
+    ctors: Dict[str, Sequence[str]] = field(default_factory=dict)      # callee -> source text of its positional arguments;
+                                                                       # its keyword arguments are the record's fields
+    defaults: Dict[str, str] = field(default_factory=dict)             # attribute -> Lean term of an omitted `ctors` keyword
+    skip: Sequence[str] = ()          # statements passed over: the test of an `if`, else the statement text (must not assign
+                                      # a tracked variable)
 
 
 def _find_func(tree: ast.Module, qual: str) -> ast.FunctionDef:
@@ -99,7 +119,7 @@ def _find_func(tree: ast.Module, qual: str) -> ast.FunctionDef:
 
 
 def _lname(py: str) -> str:
-    return "v_" + py
+    return "v_" + re.sub(r"\W", "_", py)
 
 
 class Tr:
@@ -156,14 +176,21 @@ class Tr:
                 raise Unsupported(f"'{n.id}' is read after an in-place update (aliasing is not modelled)")
             if n.id in env:
                 v = env[n.id]
-                if v.kind == "optreal":
+                if v.kind in OPT:
                     if v.none is False:
-                        return v.lean, "real"
+                        return v.lean, ("real" if v.kind == "optreal" else "obj")
                     raise Unsupported(f"'{n.id}' may be None where its value is used")
                 return v.lean, v.kind
             if n.id in self.const_nodes:
                 return self.expr(self.const_nodes[n.id], env, want)
             raise Unsupported(f"unknown name '{n.id}'")
+        if isinstance(n, ast.Attribute) and self.f.record:
+            if ast.unparse(n) in env:                      # a dotted variable such as `self.exp`
+                return env[ast.unparse(n)].lean, env[ast.unparse(n)].kind
+            t, k = self.expr(n.value, env)
+            if k == "rec" and n.attr in self.f.fields:
+                return self.field(t, n.attr)
+            raise Unsupported(f"attribute {ast.unparse(n)[:60]}")
         if isinstance(n, ast.UnaryOp):
             if isinstance(n.op, ast.USub):
                 if isinstance(n.operand, ast.Constant) and isinstance(n.operand.value, int) and want != "real":
@@ -240,6 +267,8 @@ class Tr:
 
     def cmp1(self, op: str, a: Tuple[str, str], b: Tuple[str, str]) -> str:
         (ta, ka), (tb, kb) = a, b
+        if ka == "bool" and kb == "bool" and op in ("eq", "ne"):
+            return f"({ta} ↔ {tb})" if op == "eq" else f"(¬ ({ta} ↔ {tb}))"
         if ka == "int" and kb == "int":
             sym = {"lt": "<", "le": "≤", "gt": ">", "ge": "≥", "eq": "=", "ne": "≠"}[op]
             return f"({ta} {sym} {tb})"
@@ -287,6 +316,23 @@ class Tr:
             return self.expr(n.args[0], env, want)
         if isinstance(fn, ast.Attribute) and fn.attr in self.f.idfuncs:
             return self.expr(fn.value, env, want)
+        if self.f.record and ast.unparse(fn) in self.f.copies and len(n.args) == 1 and not kws:
+            t, k = self.expr(n.args[0], env)
+            if k != "rec":
+                raise Unsupported(f"{ast.unparse(fn)}() of a {k}")
+            return t, "rec"                                # a shallow copy has the same attributes: the same record
+        if self.f.record and ast.unparse(fn) in self.f.ctors:
+            if [ast.unparse(a) for a in n.args] != list(self.f.ctors[ast.unparse(fn)]) or set(kws) - set(self.f.fields):
+                raise Unsupported(f"arguments of {ast.unparse(n)[:70]}")
+            parts = []
+            for attr, (lf, fk) in self.f.fields.items():
+                if attr in kws:
+                    parts.append(self.coerce(attr, self.expr(kws[attr], env, "real" if fk == "real" else None)))
+                elif attr in self.f.defaults:
+                    parts.append(f"{lf} := {self.f.defaults[attr]}")
+                else:
+                    raise Unsupported(f"{ast.unparse(fn)}(…) without `{attr}=`")
+            return "({ " + ", ".join(parts) + f" }} : {self.f.record} α)", "rec"
         if (self.f.elt is not None and self.f.mode == "block" and isinstance(fn, ast.Name) and fn.id in ("tuple", "list")
                 and len(n.args) == 1 and isinstance(n.args[0], (ast.GeneratorExp, ast.ListComp))):
             return self.comp_elt(n.args[0], env, want)
@@ -299,6 +345,11 @@ class Tr:
                 if a[1] == "int" and b[1] == "int":
                     return f"({fn.id} {a[0]} {b[0]})", "int"
                 return f"(py{fn.id.capitalize()} {self.to_real(*a)} {self.to_real(*b)})", "real"
+            if fn.id in self.f.objfuncs and len(n.args) == 2:
+                a, b = self.expr(n.args[0], env), self.expr(n.args[1], env)
+                if a[1] != "obj" or b[1] != "obj":
+                    raise Unsupported(f"{fn.id}() of {a[1]}, {b[1]}")
+                return f"(f_{fn.id} {a[0]} {b[0]})", "real"
             if fn.id in self.f.funcs and len(n.args) == 2:
                 a, b = self.expr(n.args[0], env, "real"), self.expr(n.args[1], env, "real")
                 return f"(f_{fn.id} {self.to_real(*a)} {self.to_real(*b)})", "real"
@@ -352,6 +403,10 @@ class Tr:
 
     def method(self, obj: Tuple[str, str], name: str, args, kws, env, want) -> Tuple[str, str]:
         t, k = obj
+        if k == "rec":
+            if name in self.f.methods and not args and not kws:
+                return f"({self.f.methods[name]} {t})", "rec"
+            raise Unsupported(f"method .{name}() on a record")
         arg = lambda i, w=None: self.expr(args[i], env, w or (k if isinstance(args[i], ast.Constant) else None))
         if name in self.ELEMENTWISE_BIN and len(args) == 1:
             return self.arith(self.ELEMENTWISE_BIN[name], obj, arg(0))
@@ -442,7 +497,7 @@ class Tr:
             return self.branch(test.operand, env, kf, kt, ind)
         if (isinstance(test, ast.Compare) and len(test.ops) == 1 and isinstance(test.ops[0], (ast.Is, ast.IsNot))
                 and isinstance(test.comparators[0], ast.Constant) and test.comparators[0].value is None
-                and isinstance(test.left, ast.Name) and test.left.id in env and env[test.left.id].kind == "optreal"):
+                and isinstance(test.left, ast.Name) and test.left.id in env and env[test.left.id].kind in OPT):
             v = env[test.left.id]
             isnone_t, isnone_f = (kt, kf) if isinstance(test.ops[0], ast.Is) else (kf, kt)
             if v.none is True:
@@ -450,10 +505,10 @@ class Tr:
             if v.none is False:
                 return isnone_f(env, ind)
             e_none = dict(env)
-            e_none[test.left.id] = Var(v.lean, "optreal", True)
+            e_none[test.left.id] = Var(v.lean, v.kind, True)
             nm = self.fresh(test.left.id)
             e_some = dict(env)
-            e_some[test.left.id] = Var(nm, "optreal", False)
+            e_some[test.left.id] = Var(nm, v.kind, False)
             return (f"match {v.lean} with\n{ind}| none =>\n{ind}  {isnone_t(e_none, ind + '  ')}\n"
                     f"{ind}| some {nm} =>\n{ind}  {isnone_f(e_some, ind + '  ')}")
         return (f"if {self.cond(test, env)} then\n{ind}  {kt(env, ind + '  ')}\n{ind}else\n{ind}  {kf(env, ind + '  ')}")
@@ -467,6 +522,10 @@ class Tr:
             return cont(env, ind)
         if isinstance(s, ast.Pass):
             return cont(env, ind)
+        if self.f.record:
+            r = self.rec_stmt(s, env, cont, ind)
+            if r is not None:
+                return r
         if isinstance(s, (ast.Assign, ast.AnnAssign, ast.AugAssign)):
             if isinstance(s, ast.Assign):
                 if len(s.targets) != 1 or not isinstance(s.targets[0], ast.Name):
@@ -481,15 +540,17 @@ class Tr:
                     raise Unsupported("augmented assignment target")
                 name, value = s.target.id, ast.BinOp(left=ast.Name(id=s.target.id, ctx=ast.Load()), op=s.op, right=s.value)
             # aliasing of optional variables / None
+            old = env.get(name)
             if isinstance(value, ast.Constant) and value.value is None:
                 e2 = dict(env)
-                e2[name] = Var("none", "optreal", True)
+                e2[name] = Var("none", old.kind if old and old.kind in OPT else "optreal", True)
                 return cont(e2, ind)
-            if isinstance(value, ast.Name) and value.id in env and env[value.id].kind == "optreal":
+            if isinstance(value, ast.Name) and value.id in env and env[value.id].kind in OPT:
                 e2 = dict(env)
                 e2[name] = env[value.id]
                 return cont(e2, ind)
-            old = env.get(name)
+            if old is not None and old.kind == "optobj":
+                raise Unsupported(f"object '{name}' is assigned something that is neither None nor another object")
             t, kind = self.expr(value, env, "real" if (old and old.kind in ("real", "optreal")) else None)
             nm = self.fresh(name)
             e2 = dict(env)
@@ -515,7 +576,84 @@ class Tr:
             return f'if {self.cond(s.test, env)} then\n{ind}  {cont(env, ind + "  ")}\n{ind}else .error "err:AssertionError"'
         raise Unsupported(f"statement {type(s).__name__}: {ast.unparse(s)[:60]}")
 
+    # ------------------------------------------------------------------ records (mode "record")
+    def field(self, t: str, attr: str) -> Tuple[str, str]:
+        lf, kind = self.f.fields[attr]
+        return {"real": (f"{t}.{lf}", "real"), "nat": (f"(({t}.{lf} : Nat) : Int)", "int"), "bool": (f"({t}.{lf} = true)", "bool")}[kind]
+
+    def coerce(self, attr: str, val: Tuple[str, str]) -> str:
+        (lf, kind), (t, k) = self.f.fields[attr], val
+        if kind == "real":
+            return f"{lf} := {self.to_real(t, k)}"
+        if (kind, k) in (("nat", "int"), ("bool", "bool")):
+            return f"{lf} := " + ("Int.toNat " if kind == "nat" else "decide ") + t
+        raise Unsupported(f"attribute '{attr}' ({kind}) is given a {k}")
+
+    def rec_stmt(self, s: ast.stmt, env, cont: Callable, ind: str) -> Optional[str]:
+        """skipped statements, copies of objects, attribute targets, record-valued assignments; None: not handled here"""
+        if (ast.unparse(s.test) if isinstance(s, ast.If) else ast.unparse(s)) in self.f.skip:
+            for x in ast.walk(s):
+                if isinstance(x, (ast.Assign, ast.AugAssign, ast.AnnAssign)):
+                    for tg in getattr(x, "targets", None) or [x.target]:
+                        if ast.unparse(tg) in env or (isinstance(tg, ast.Attribute) and ast.unparse(tg.value) in env):
+                            raise Unsupported(f"a skipped statement assigns `{ast.unparse(tg)}`")
+            return cont(env, ind)
+        if isinstance(s, (ast.Raise, ast.Assert)):
+            raise Unsupported(f"statement {type(s).__name__} in a record fragment")
+        if not isinstance(s, (ast.Assign, ast.AugAssign)) or (isinstance(s, ast.Assign) and len(s.targets) != 1):
+            return None
+        tgt = s.targets[0] if isinstance(s, ast.Assign) else s.target
+        value = s.value if isinstance(s, ast.Assign) else ast.BinOp(left=tgt, op=s.op, right=s.value)
+        key, rty = ast.unparse(tgt), f"{self.f.record} α"
+        copy_of = (value.args[0] if isinstance(value, ast.Call) and ast.unparse(value.func) in self.f.copies
+                   and len(value.args) == 1 and not value.keywords else None)
+        if isinstance(tgt, ast.Name) and isinstance(copy_of, ast.Name) and copy_of.id not in env:
+            # copy of an object known only through its dotted variables `obj.attr`: the copy has the same attributes
+            e2 = dict(env)
+            e2.update({key + k[len(copy_of.id):]: Var(v.lean, v.kind) for k, v in env.items() if k.startswith(copy_of.id + ".")})
+            if len(e2) == len(env):
+                raise Unsupported(f"copy of the unknown object '{copy_of.id}'")
+            return cont(e2, ind)
+        if isinstance(tgt, ast.Attribute) and key not in env:              # `y.attr = e`: record update of an owned copy
+            base, bkey = env.get(ast.unparse(tgt.value)), ast.unparse(tgt.value)
+            if base is None or base.kind != "rec" or tgt.attr not in self.f.fields:
+                raise Unsupported(f"assignment target: {key}")
+            if not base.owned:
+                raise Unsupported(f"`{key} = …` updates an object that is not a fresh copy (aliasing is not modelled)")
+            upd = self.coerce(tgt.attr, self.expr(value, env, "real" if self.f.fields[tgt.attr][1] == "real" else None))
+            nm, e2 = self.fresh(bkey), dict(env)
+            e2[bkey] = Var(nm, "rec", owned=True)
+            return f"let {nm} : {rty} := {{ {base.lean} with {upd} }}\n{ind}{cont(e2, ind)}"
+        if isinstance(tgt, ast.Name) or key in env:                         # `x = <record>` / `self.exp = <record>`
+            t, k = self.expr(value, env)
+            if k != "rec":
+                if isinstance(tgt, ast.Name):
+                    return None
+                raise Unsupported(f"`{key}` is assigned a {k}")
+            fresh_obj = copy_of is not None or (isinstance(value, ast.Call) and ast.unparse(value.func) in self.f.ctors)
+            nm, e2 = self.fresh(key), dict(env)
+            e2[key] = Var(nm, "rec", owned=fresh_obj)
+            return f"let {nm} : {rty} := {t}\n{ind}{cont(e2, ind)}"
+        return None
+
+    def record_fragment(self, fn: ast.FunctionDef) -> str:
+        sig, env = self.signature()
+
+        def end(e, i):
+            raise Unsupported(f"a path of {self.f.func} ends without `return`")
+        return f"def {self.f.name} {sig} : {self.f.record} α :=\n  {self.block(fn.body, env, end, '  ')}\n"
+
     def ret(self, value: Optional[ast.AST], env) -> str:
+        if self.f.mode == "record":
+            if isinstance(value, ast.Name) and value.id not in env:       # an object known through its dotted variables
+                hits = [v for k, v in env.items() if k.startswith(value.id + ".") and v.kind == "rec"]
+                if len(hits) != 1:
+                    raise Unsupported(f"return of the unknown object '{value.id}'")
+                return hits[0].lean
+            t, k = self.expr(value, env) if value is not None else ("", "None")
+            if k != "rec":
+                raise Unsupported(f"return of a {k}")
+            return t
         if value is None or (isinstance(value, ast.Constant) and value.value is None):
             return ".ok none"
         t, k = self.expr(value, env, "real" if self.rkind == "real" else None)
@@ -530,8 +668,11 @@ class Tr:
             ps.append("(sqrtF : α → α)")
         for fname in self.f.funcs:
             ps.append(f"(f_{fname} : α → α → α)")
+        for fname in self.f.objfuncs:
+            ps.append(f"(f_{fname} : ι → ι → α)")
         for name, kind in self.f.params.items():
-            ty = {"real": "α", "int": "Int", "nat": "Nat", "optreal": "Option α", "bool": "Bool"}[kind]
+            ty = {"real": "α", "int": "Int", "nat": "Nat", "optreal": "Option α", "optobj": "Option ι", "bool": "Bool",
+                  "rec": f"{self.f.record} α"}[kind]
             ps.append(f"({_lname(name)} : {ty})")
             if kind == "bool":
                 env[name] = Var(f"({_lname(name)} = true)", "bool")
@@ -563,12 +704,12 @@ class Tr:
             outs = []
             for o in self.f.outs:
                 v = e[o]
-                if v.kind == "optreal":
+                if v.kind in OPT:
                     outs.append("none" if v.none is True else (f"some {v.lean}" if v.none is False else v.lean))
                 else:
                     outs.append(v.lean)
             return ".ok (" + ", ".join(outs) + ")"
-        tys = " × ".join({"optreal": "Option α", "real": "α", "int": "Int"}[self.f.out_kinds.get(o, self.f.params.get(o, "optreal"))]
+        tys = " × ".join({"optreal": "Option α", "optobj": "Option ι", "real": "α", "int": "Int"}[self.f.out_kinds.get(o, self.f.params.get(o, "optreal"))]
                          for o in self.f.outs)
         body = self.block(stmts, env, fin, "  ")
         return f"def {self.f.name} {sig} : Except String ({tys}) :=\n  {body}\n"
@@ -687,6 +828,8 @@ def translate(frag: Frag, src_root: Path, rkind: str = "real") -> str:
         return tr.assign_fragment(fn)
     if frag.mode == "lets":
         return tr.lets_fragment(fn)
+    if frag.mode == "record":
+        return tr.record_fragment(fn)
     raise ValueError(frag.mode)
 
 
